@@ -512,10 +512,10 @@ def registered_later(ctx):
 
                 for c_ in ("length", "time", "duration"):
                     Scalar(c_), _Fs2(c_), _Fa(2, c_), Scalar(c_, unit=db.GetDefaultUnit(c_))
-                db.AddCategory("time", "time", override=True, default_value=5.0)
+                db.AddCategory("time", "time", override=True, default_value=5.5)  # (not a whole number: a fractional amount reads it as it is)
                 category_sweep(ctx, db, only={"time"}, tag=" (after the category was registered again with another default value)")
                 db.AddCategory("length", "length", override=True, default_unit="cm")
-                db.AddCategory("duration", "time", override=True)
+                db.AddCategory("duration", "time", override=True, default_value=-2.25)
                 category_sweep(ctx, db, only={"length", "time", "duration", "dynamic viscosity"}, tag=" (after the category was registered again)")
             for u, c in pairs:
                 for v in (1.0, -2.5):
